@@ -48,6 +48,8 @@ def sqlalchemy_table(call_or_name, parse_original_whitespace=False):
     """
     if isinstance(call_or_name, Assign):
         name, call_or_name = call_or_name.targets[0].id, call_or_name.value
+        if name == "__table__":  # hybrid: binding is `__table__`, table name is first arg
+            name = get_value(call_or_name.args[0])
     elif isinstance(call_or_name, AnnAssign):
         name, call_or_name = call_or_name.target.id, call_or_name.value
     else:
